@@ -19,24 +19,36 @@ type Req struct {
 	Path   []string `json:"path"` // decoded segments after the leading slash
 	// Raw, if set, is sent on the request line instead of the escaped Path (C08 spellings).
 	Raw string `json:"raw,omitempty"`
+	// Spelling is the abstract form of Raw (spec/Encoding.tla).
+	Spelling [][]Octet `json:"spelling,omitempty"`
+}
+
+// Octet is one character of a path segment and how it is spelled.
+type Octet struct {
+	C   string `json:"c"`
+	Enc bool   `json:"enc"`
+	Up  bool   `json:"up"`
 }
 
 // Event is one line of the trace (see spec/RuleIndexTrace.tla).
 type Event struct {
-	Ev      string         `json:"ev"` // reset | op | probe
-	Trace   int            `json:"trace"`
-	Default bool           `json:"default"`
-	Kind    string         `json:"kind,omitempty"` // add | update | delete
-	Src     string         `json:"src,omitempty"`
-	Rules   []Rule         `json:"rules"`
-	Result  string         `json:"result,omitempty"` // ok | rejected
-	Err     string         `json:"err,omitempty"`
-	Req     *Req           `json:"req,omitempty"`
-	Got     string         `json:"got"`
-	HasCaps bool           `json:"hascaps"`
-	Caps    [][2]string    `json:"caps"`
-	Status  int            `json:"status,omitempty"`
-	View    *scripted.View `json:"view,omitempty"`
+	Ev       string         `json:"ev"` // reset | op | probe
+	Trace    int            `json:"trace"`
+	Default  bool           `json:"default"`
+	Mode     string         `json:"mode,omitempty"`
+	Kind     string         `json:"kind,omitempty"` // add | update | delete
+	Src      string         `json:"src,omitempty"`
+	Rules    []Rule         `json:"rules"`
+	Result   string         `json:"result,omitempty"` // ok | rejected
+	Err      string         `json:"err,omitempty"`
+	Req      *Req           `json:"req,omitempty"`
+	Got      string         `json:"got"`
+	HasCaps  bool           `json:"hascaps"`
+	Caps     [][2]string    `json:"caps"`
+	Status   int            `json:"status"`
+	Positive bool           `json:"positive"`
+	Upstream string         `json:"upstream"` // canonicalised path received by the upstream ("" = none)
+	View     *scripted.View `json:"view,omitempty"`
 }
 
 type Bed struct {
@@ -160,7 +172,16 @@ func (b *Bed) Probe(r Req) (Event, error) {
 		return Event{}, err
 	}
 
-	ev := Event{Ev: "probe", Req: &r, Caps: [][2]string{}, Status: o.Status}
+	ev := Event{Ev: "probe", Req: &r, Caps: [][2]string{}, Status: o.Status, Positive: o.Positive}
+
+	if len(o.Upstream) > 0 {
+		uri := o.Upstream[0].RequestURI
+		if i := strings.IndexByte(uri, '?'); i >= 0 {
+			uri = uri[:i]
+		}
+
+		ev.Upstream = CanonPath(uri)
+	}
 
 	mode := b.App.Mode
 	rule := o.PipelineHeader(mode, "X-Rule")
@@ -183,7 +204,14 @@ func (b *Bed) Probe(r Req) (Event, error) {
 				sort.Strings(keys)
 
 				for _, k := range keys {
-					ev.Caps = append(ev.Caps, [2]string{k, v.Captures[k]})
+					val := v.Captures[k]
+					if r.Spelling != nil {
+						// the hex case of a preserved encoded slash is left open; by construction
+						// "%2f" can only stem from a slash octet here
+						val = strings.ReplaceAll(val, "%2f", "%2F")
+					}
+
+					ev.Caps = append(ev.Caps, [2]string{k, val})
 				}
 			}
 		}
@@ -194,4 +222,42 @@ func (b *Bed) Probe(r Req) (Event, error) {
 	}
 
 	return ev, nil
+}
+
+// CanonPath normalises a path the RFC 3986 way: percent-encoded unreserved characters are decoded,
+// the hex digits of the remaining encodings are upper-cased.
+func CanonPath(p string) string {
+	unhex := func(c byte) int {
+		switch {
+		case c >= '0' && c <= '9':
+			return int(c - '0')
+		case c >= 'a' && c <= 'f':
+			return int(c-'a') + 10
+		case c >= 'A' && c <= 'F':
+			return int(c-'A') + 10
+		}
+
+		return -1
+	}
+
+	var sb strings.Builder
+
+	for i := 0; i < len(p); i++ {
+		if p[i] == '%' && i+2 < len(p) && unhex(p[i+1]) >= 0 && unhex(p[i+2]) >= 0 {
+			c := byte(unhex(p[i+1])<<4 | unhex(p[i+2]))
+			if c >= 'a' && c <= 'z' || c >= 'A' && c <= 'Z' || c >= '0' && c <= '9' || strings.IndexByte("-._~", c) >= 0 {
+				sb.WriteByte(c)
+			} else {
+				fmt.Fprintf(&sb, "%%%02X", c)
+			}
+
+			i += 2
+
+			continue
+		}
+
+		sb.WriteByte(p[i])
+	}
+
+	return sb.String()
 }
